@@ -912,15 +912,13 @@ pub fn run(family: &str, tier: Tier, out: &mut Output) {
         "reasm" => {
             let bases: &[u64] = &[0, 4096, 65536, 262_144, 1 << 20, VMAX - 4097];
             for &b in bases {
-                let d = tier.pick(4, 5);
+                let d = tier.pick(5, 7);
                 let cfg = Json::obj().set("base", b).set("wide", false);
                 out.push(explore("seqmc", "c16.reasm", cfg, &move || Reasm::new(b, false), &Limits::depth(d).wall(tier.pick(25.0, 400.0))));
             }
-            if tier == Tier::Thorough {
-                for &b in &[0u64, 65536] {
-                    let cfg = Json::obj().set("base", b).set("wide", true);
-                    out.push(explore("seqmc", "c16.reasm", cfg, &move || Reasm::new(b, true), &Limits::depth(3).wall(300.0)));
-                }
+            for &b in &[0u64, 65536] {
+                let cfg = Json::obj().set("base", b).set("wide", true);
+                out.push(explore("seqmc", "c16.reasm", cfg, &move || Reasm::new(b, true), &Limits::depth(tier.pick(3, 5)).wall(tier.pick(30.0, 400.0))));
             }
         }
         "iset" => {
